@@ -143,7 +143,23 @@ def run_timers(limit=120.0):
     return escaped
 
 
-def exercise_transit(hints, receiver=False):
+class FakeTor:
+    """stands for the txtorcon object `--tor` provides: stream_via() gives an endpoint through Tor, and - like txtorcon's -
+    refuses numeric addresses that are not public IPv4 (loopback, private ranges, anything IPv6) with ValueError"""
+
+    def stream_via(self, host, port, tls=False):
+        import ipaddress
+        from twisted.internet.endpoints import HostnameEndpoint
+        try:
+            ip = ipaddress.ip_address(host)
+        except ValueError:
+            ip = None
+        if ip is not None and (ip.version == 6 or not ip.is_global):
+            raise ValueError("%r isn't going to work over Tor" % (host,))
+        return HostnameEndpoint(reactor, "tor-exit.invalid", port)
+
+
+def exercise_transit(hints, receiver=False, tor=None):
     """-> (exceptions, dialled ports)"""
     reactor.reset()
     errs = Errors()
@@ -151,7 +167,7 @@ def exercise_transit(hints, receiver=False):
     excs = []
     try:
         cls = transit.TransitReceiver if receiver else transit.TransitSender
-        t = cls(None, no_listen=True, reactor=reactor)
+        t = cls(None, no_listen=True, tor=tor, reactor=reactor)
         t.set_transit_key(b"k" * 32)
         t.get_connection_hints()           # the documented call order: our hints first (no listener here)
         try:
@@ -274,11 +290,14 @@ def run(prop, tier):
     odd_logged = 0
     nontrivial = set()
     variants = range(2 if quick else 6)
-    for (_, case, must, may) in cases:
+    for (_, case, must, may, may_tor) in cases:
         case = list(case)
         for variant in variants:
-            for entry in ("transit-sender", "transit-receiver", "dilation"):
+            for entry in ("transit-sender", "transit-receiver", "dilation", "transit-sender+tor"):
                 if quick and entry == "transit-receiver" and variant > 0:
+                    continue
+                if entry.endswith("+tor") and (variant > (0 if quick else 2) or not any(
+                        h2["type"] in ("tor-tcp-v1", "direct-tcp-v1") for h in case for h2 in [h] + list(h["sub"] if h["type"] == "relay-v1" and h["subkind"] == "list" else []))):
                     continue
                 conc = Concretiser(variant + (7 if entry == "dilation" else 0))
                 hints, ids = [], {}
@@ -292,6 +311,10 @@ def run(prop, tier):
                     # every fourth dilation case meets the Manager in another state (there the hints are not used)
                     mstate = MANAGER_STATES[(evaluations // 4) % len(MANAGER_STATES)] if evaluations % 4 == 3 else "CONNECTING"
                     excs, ports = exercise_dilation(hints, mstate)
+                elif entry.endswith("+tor"):
+                    # this side has Tor (`--tor`): direct and tor hints alike are tried through it; addresses Tor cannot reach
+                    # (the concretisations include private IPv4 and IPv6 literals) are skipped - never an exception
+                    excs, ports = exercise_transit(hints, receiver=False, tor=FakeTor())
                 else:
                     excs, ports = exercise_transit(hints, receiver=entry.endswith("receiver"))
                 if any(h2["hostname"] == "oddstr" for h in case for h2 in [h] + list(h["sub"] if h["type"] == "relay-v1" and h["subkind"] == "list" else [])):
@@ -308,6 +331,8 @@ def run(prop, tier):
                 nontrivial.add((shape(case), entry))
                 must_ports = expected_ports(case, ids, must) if mstate == "CONNECTING" else set()
                 may_ports = expected_ports(case, ids, may)
+                if entry.endswith("+tor"):
+                    must_ports, may_ports = set(), expected_ports(case, ids, may_tor)
                 problem = None
                 if excs:
                     where, e = excs[0]
